@@ -100,7 +100,7 @@ Definition lvl_okb (k : @relax_kind S) (A : crs) : bool :=
   | RGS => gs_diag_okb A
   end.
 
-Lemma lvl_okb_ok (Habs2 : forall v : S, sabs v * sabs v = v * v) k A : lvl_okb k A = true -> lvl_ok k A.
+Lemma lvl_okb_ok (Habs2 : forall v : S, sabs v * sabs v = v * v) (Hadj : forall v : S, sadj v = v) k A : lvl_okb k A = true -> lvl_ok k A.
 Proof.
   intro H. unfold lvl_okb in H. apply andb_prop in H as [H H3]. apply andb_prop in H as [H1 H2].
   pose proof (wddb_ok _ _ H2) as HW. pose proof HW as (SA & Hpos & _).
@@ -122,16 +122,16 @@ Fixpoint descs_okb (k : @relax_kind S) (ls : list (@ldesc S)) : bool :=
   | LSolve A :: tl => lvl_okb k A && descs_okb k tl
   end.
 
-Lemma descs_okb_ok (Habs2 : forall v : S, sabs v * sabs v = v * v) k ls :
+Lemma descs_okb_ok (Habs2 : forall v : S, sabs v * sabs v = v * v) (Hadj : forall v : S, sadj v = v) k ls :
   descs_okb k ls = true -> descs_ok k ls.
 Proof.
   induction ls as [|l tl IH]; intro H; [exact I|]. destruct l as [A P R|A|A]; simpl in *.
   - apply andb_prop in H as [H H6]. apply andb_prop in H as [H H5]. apply andb_prop in H as [H H4].
     apply andb_prop in H as [H H3]. apply andb_prop in H as [H1 H2].
-    split; [apply (lvl_okb_ok Habs2), H1|]. split; [exact H2|]. split; [exact H3|].
+    split; [apply (lvl_okb_ok Habs2 Hadj), H1|]. split; [exact H2|]. split; [exact H3|].
     split; [apply Nat.eqb_eq, H4|]. split; [apply (transpb_ok Seqb), H5|apply IH, H6].
-  - apply andb_prop in H as [H1 H2]. split; [apply (lvl_okb_ok Habs2), H1|apply IH, H2].
-  - apply andb_prop in H as [H1 H2]. split; [apply (lvl_okb_ok Habs2), H1|apply IH, H2].
+  - apply andb_prop in H as [H1 H2]. split; [apply (lvl_okb_ok Habs2 Hadj), H1|apply IH, H2].
+  - apply andb_prop in H as [H1 H2]. split; [apply (lvl_okb_ok Habs2 Hadj), H1|apply IH, H2].
 Qed.
 
 End Check2.
